@@ -114,12 +114,89 @@ PIXEL_SIMPLE = ('CirclePixelRegion', 'EllipsePixelRegion',
                 'PointPixelRegion', 'LinePixelRegion', 'TextPixelRegion')
 
 
+ASSIGNABLE = ('CirclePixelRegion', 'EllipsePixelRegion',
+              'RectanglePixelRegion', 'PolygonPixelRegion',
+              'CircleAnnulusPixelRegion', 'EllipseAnnulusPixelRegion',
+              'RectangleAnnulusPixelRegion', 'PointPixelRegion',
+              'LinePixelRegion', 'TextPixelRegion')
+
+
+def _decoy(spec):
+    """A different valid spec of the same class (larger, shifted, turned)."""
+    d = dict(spec)
+    d.pop('build', None)
+    for k in ('center', 'start', 'end'):
+        if k in d:
+            d[k] = [d[k][0] + 3.25, d[k][1] - 1.5]
+    for k in ('radius', 'width', 'height', 'inner_radius', 'outer_radius',
+              'inner_width', 'outer_width', 'inner_height', 'outer_height'):
+        if k in d:
+            d[k] = float(d[k]) * 1.75 + 0.5
+    if d.get('angle') is not None:
+        d['angle'] = [d['angle'][0] + 0.3, d['angle'][1]] + list(d['angle'][2:])
+    elif 'angle' in d:
+        d['angle'] = [12.0, 'deg', 'Quantity']
+    if 'vertices' in d:
+        vx, vy = d['vertices']
+        d['vertices'] = [[v * 1.5 + 2.0 for v in vx] + [vx[0] - 7.0],
+                         [v * 0.5 - 1.0 for v in vy] + [vy[0] + 9.0]]
+        d.pop('origin', None)
+    if 'text' in d:
+        d['text'] = d['text'] + ' (old)'
+    d['meta'] = {'text': 'decoy'}
+    d['visual'] = {'color': 'black'}
+    return d
+
+
+def _touch(obj):
+    from regions import PixCoord
+    try:
+        obj.bounding_box
+        bb = obj.bounding_box
+        obj.contains(PixCoord(1.5, 2.5))
+        obj.contains(PixCoord([0.0, 3.0], [1.0, 4.0]))
+        repr(obj)
+        str(obj)
+        obj == obj
+        if bb.shape[0] * bb.shape[1] <= 250000:
+            for mode in ('center', 'exact', 'subpixels'):
+                try:
+                    obj.to_mask(mode, 2)
+                except NotImplementedError:
+                    pass
+        obj.area
+    except NotImplementedError:
+        pass
+    try:
+        obj.as_artist()
+    except Exception:   # noqa: BLE001 - plotting is optional here
+        pass
+
+
 def build(spec):
-    """Spec -> region object (pixel or sky)."""
+    """Spec -> region object (pixel or sky).  With spec['build'] == 'assign'
+    the object is first constructed from a DIFFERENT valid spec of the same
+    class and then every parameter, meta and visual is assigned: a region
+    that was edited in place must behave like a freshly constructed one."""
     import regions
     cls = spec['cls']
     if cls.endswith('SkyRegion'):
         return build_sky(spec)
+    if spec.get('build') == 'assign' and cls in ASSIGNABLE:
+        target = build(dict(spec, build='direct'))
+        obj = build(_decoy(spec))
+        # use the object before editing it (read - mutate - read): anything
+        # cached by the first reads must not survive the assignments
+        _touch(obj)
+        order = list(obj._params)
+        # annuli: grow outer sizes first so that no intermediate state is
+        # refused should cross-field validation ever be added
+        order.sort(key=lambda p: (not p.startswith('outer'),))
+        for p in order:
+            setattr(obj, p, getattr(target, p))
+        obj.meta = target.meta
+        obj.visual = target.visual
+        return obj
     k = spec.get('num')
     m, v = meta_objs(spec)
     kw = {}
